@@ -177,6 +177,26 @@ def handleCopy (j : Json) : Json :=
   | .error .typeError => Json.mkObj [("err", Json.str "TypeError")]
   | .error (.unmodelled w) => Json.mkObj [("unmodelled", Json.str w)]
 
+/-! ### op "crule" (C03): a container type with an item type and constraints; the harness supplies what the real item
+type made of every input item (null = it refused), the model packs them into the origin container and runs the constraints -/
+
+def handleCrule (P : Prims) (j : Json) : Json :=
+  let origin := clsOfName (str! (fld j "origin"))
+  let conv : List (Option PyVal) := (arr! (fld j "converted")).map fun x => if isNull x then none else some (decode x)
+  let cs := (arr! (fld j "cs")).map fun p => match arr! p with
+    | [n, b] => (str! n, decode b) | _ => ("", PyVal.none)
+  let cj := fld j "contains"
+  let accTbl : List (PyVal × Bool) := (arr! (fld cj "acc")).map fun p => match arr! p with
+    | [x, b] => (decode x, bool! b) | _ => (PyVal.none, false)
+  let acc : PyVal → Bool := fun x => match accTbl.find? (fun p => Py.eq p.1 x && typeOf p.1 == typeOf x) with
+    | some p => p.2 | none => false
+  let cont : ContainsCfg := { declared := !(isNull cj), minC := optInt (fld cj "min"), maxC := optInt (fld cj "max") }
+  let args : PyVal → M PyVal := fun _ =>
+    if conv.any Option.isNone then throw .valueError else pure (.seq .list (conv.filterMap id))
+  let dcl : Decl := { validators := ordered (normalise cs), args := some args, cont := cont, acc := acc, post := pure,
+                      pack := Py.construct origin }
+  encodeOutcome (parseTyped P dcl .none)
+
 def handle (j : Json) : Json :=
   let P := decodePrims (fld j "prims")
   match str! (fld j "op") with
@@ -189,6 +209,7 @@ def handle (j : Json) : Json :=
       | [n, b] => (str! n, decode b) | _ => ("", PyVal.none)
     encodeOutcome (validate P (ordered (normalise cs)) (decode (fld j "value")))
   | "decl" => handleDecl P j
+  | "crule" => handleCrule P j
   | "copy" => handleCopy j
   | "skip" => Json.mkObj [("unmodelled", Json.str "skip")]
   | "cmp" =>
